@@ -3,7 +3,10 @@ from facts import walk, callee_of, call_args, loc
 import hirq, anchors, absx, cone, engine
 
 EXPLANATION = ("G1 on every path of the frame decoder, `Ok(None)` (need more bytes) is returned exactly when the TLV parser reported "
-               "Incomplete, and no buffer-mutating call (advance, split_to, truncate, clear, ...) precedes that return; a path that answers "
+               "Incomplete, and no buffer-mutating call (advance, split_to, truncate, clear, ...) precedes that return (what the decoder answers is read through the "
+               "Option / Result adaptors it is passed through, in whichever function they sit: a wrapper `Ok(body(buf)?.filter(pred))` answers Ok(None) wherever pred "
+               "rejects a delivered message - a complete, consumed frame answered need-more - unless pred is decided to hold from what the path knows, e.g. `id >= 0` of an "
+               "ID narrowed to i32 under `id <= i32::MAX`); a path that answers "
                "anything else after Incomplete must have established that the whole outermost element is already buffered (len(buf) >= "
                "identifier octet + length octets + announced length), i.e. be dead - decided by evaluating the decoder for each of the "
                "256 values of the first length octet with the other octets and the buffer length symbolic (rules/framelen.py); G2 every path "
